@@ -36,6 +36,8 @@ var srs = []srDef{
 	{"longlat+axis=wsu/bessel7p", "+proj=longlat +ellps=bessel +towgs84=577.326,90.129,463.919,5.137,1.474,5.297,2.4232 +axis=wsu", [][2]float64{{1.5, -52}, {-13.3, -47.5}}},
 	{"utm33/ED50-like(3p)", "+proj=utm +zone=33 +ellps=intl +towgs84=-87,-98,-121", [][2]float64{{500000, 5761038}, {414639.5, 4428236.1}}},
 	{"krovak/s_jtsk", "+proj=krovak +datum=s_jtsk", [][2]float64{{-800000, -1050000}, {-500000, -1100000}}},
+	{"utm33/GRS80", "+proj=utm +zone=33 +ellps=GRS80 +towgs84=0,0,0", [][2]float64{{500000, 5761038}, {414639.5, 4428236.1}}},
+	{"utm32/WGS84", "+proj=utm +zone=32 +datum=WGS84", [][2]float64{{500000, 5761038}, {614639.5, 4428236.1}}},
 }
 
 func try(f func()) (p string) {
@@ -146,66 +148,69 @@ func main() {
 		return
 	}
 	rep := report.New("C10", tier, "model_checking")
-	rep.Rule = "E2 (stateless, no dedup: closure-captured state cannot be fingerprinted): ALL sequences of up to 4 (thorough 5) operations Build(i,j) / Call(slot, point) over 5 (7) spatial references parsed once per sequence (7-parameter tmerc/OSGB36, 3-parameter lcc/potsdam, the registered EPSG:4326 and EPSG:3857, long/lat with +axis=neu and +axis=wsu on a 7-parameter datum, 3-parameter utm, krovak), two points per reference; every call must return what a freshly built transformer from freshly parsed definitions returns when called once; the reference values are recomputed after the sweep to detect changes of the registered globals. E1: structure trees of all eight types x transformers {nil, affine, fail on the k-th call for every k <= Len}: same type and nesting (*Bounds -> 4-vertex polygon), i-th vertex = t(i-th vertex), input unchanged, error returned, no panic. Non-trivial = sequences that call some transformer at least twice or interleave two transformers."
-	nsr, depth := 5, 4
+	rep.Rule = "E2 (stateless, no dedup: closure-captured state cannot be fingerprinted): ALL sequences of up to 4 (thorough 5) operations Build(i,j) / Call(slot, point) over two sets of 5 (6) spatial references parsed once per sequence (set A: 7-parameter tmerc/OSGB36, 3-parameter lcc/potsdam, the registered EPSG:4326 (and EPSG:3857), long/lat with +axis=neu and with +axis=wsu on a 7-parameter datum; set B: three UTM references of which two share a zone on different ellipsoids/datums, EPSG:4326, krovak), two points per reference; every call must return what a freshly built transformer from freshly parsed definitions returns when called once; the reference values are recomputed after the sweep to detect changes of the registered globals. E1: structure trees of all eight types x transformers {nil, affine, fail on the k-th call for every k <= Len}: same type and nesting (*Bounds -> 4-vertex polygon), i-th vertex = t(i-th vertex), input unchanged, error returned, no panic. Non-trivial = sequences that call some transformer at least twice or interleave two transformers."
+	depth := 4
+	// reference sets: every sequence is enumerated over each set in turn
+	sets := [][]int{{0, 1, 2, 4, 5}, {6, 8, 9, 2, 7}}
 	if tier == "thorough" {
-		nsr, depth = 7, 5
+		depth = 5
+		sets = [][]int{{0, 1, 2, 3, 4, 5}, {6, 8, 9, 2, 7, 3}}
 	}
-	use := []int{0, 1, 2, 4, 5}
-	if tier == "thorough" {
-		use = []int{0, 1, 2, 3, 4, 5, 6}
-	}
-	_ = nsr
-	// reference values
 	ref := map[[3]int]val{}
-	for _, i := range use {
-		for _, j := range use {
-			for k := 0; k < 2; k++ {
-				ref[[3]int{i, j, k}] = fresh(i, j, k)
-			}
-		}
-	}
-	for key, v := range ref {
-		if v.pan != "" {
-			rep.Violation("fresh-transformer|panic", map[string]interface{}{"from": srs[key[0]].name, "to": srs[key[1]].name, "point": srs[key[0]].pts[key[2]], "panic": v.pan})
-		} else if v.err && key[0] != key[1] {
-			rep.Violation("fresh-transformer|error", map[string]interface{}{"from": srs[key[0]].def, "to": srs[key[1]].def, "point": srs[key[0]].pts[key[2]]})
-		}
-	}
-	// enumerate sequences; the first operation is always a Build (first-level sharding)
-	var builds []op
-	for _, i := range use {
-		for _, j := range use {
-			builds = append(builds, op{build: true, i: i, j: j})
-		}
-	}
 	var nseq, ncalls, nontrivial int64
-	// sequential on purpose: the registered references are shared process-wide
-	for bi := range builds {
-		if rep.Expired() {
-			break
-		}
-		var rec func(seq []op, nbuilt int)
-		rec = func(seq []op, nbuilt int) {
-			if len(seq) > 0 && !seq[len(seq)-1].build || len(seq) == depth {
-				// execute sequences that end with a call (every prefix ending in a
-				// call is itself enumerated), and all of maximal length
-				execute(rep, seq, ref, &ncalls, &nontrivial)
-				atomic.AddInt64(&nseq, 1)
-			}
-			if len(seq) == depth {
-				return
-			}
-			for _, b := range builds {
-				rec(append(append([]op{}, seq...), b), nbuilt+1)
-			}
-			for s := 0; s < nbuilt; s++ {
+	for _, use := range sets {
+		// reference values
+		for _, i := range use {
+			for _, j := range use {
 				for k := 0; k < 2; k++ {
-					rec(append(append([]op{}, seq...), op{slot: s, k: k}), nbuilt)
+					key := [3]int{i, j, k}
+					if _, ok := ref[key]; ok {
+						continue
+					}
+					v := fresh(i, j, k)
+					ref[key] = v
+					if v.pan != "" {
+						rep.Violation("fresh-transformer|panic", map[string]interface{}{"from": srs[key[0]].name, "to": srs[key[1]].name, "point": srs[key[0]].pts[key[2]], "panic": v.pan})
+					} else if v.err && key[0] != key[1] {
+						rep.Violation("fresh-transformer|error", map[string]interface{}{"from": srs[key[0]].def, "to": srs[key[1]].def, "point": srs[key[0]].pts[key[2]]})
+					}
 				}
 			}
 		}
-		rec([]op{builds[bi]}, 1)
+		// enumerate sequences; the first operation is always a Build
+		var builds []op
+		for _, i := range use {
+			for _, j := range use {
+				builds = append(builds, op{build: true, i: i, j: j})
+			}
+		}
+		// sequential on purpose: the registered references are shared process-wide
+		for bi := range builds {
+			if rep.Expired() {
+				break
+			}
+			var rec func(seq []op, nbuilt int)
+			rec = func(seq []op, nbuilt int) {
+				if len(seq) > 0 && !seq[len(seq)-1].build || len(seq) == depth {
+					// execute sequences that end with a call (every prefix ending in a
+					// call is itself enumerated), and all of maximal length
+					execute(rep, seq, ref, &ncalls, &nontrivial)
+					atomic.AddInt64(&nseq, 1)
+				}
+				if len(seq) == depth {
+					return
+				}
+				for _, b := range builds {
+					rec(append(append([]op{}, seq...), b), nbuilt+1)
+				}
+				for s := 0; s < nbuilt; s++ {
+					for k := 0; k < 2; k++ {
+						rec(append(append([]op{}, seq...), op{slot: s, k: k}), nbuilt)
+					}
+				}
+			}
+			rec([]op{builds[bi]}, 1)
+		}
 	}
 	// the registered globals must still denote the same transformations
 	for key, v := range ref {
